@@ -91,6 +91,28 @@ def other_hidden_state(mod):
             name = (dotted(d.func) if isinstance(d, ast.Call) else dotted(d)) or ""
             if name.split(".")[-1] in CACHE_DECORATORS:
                 out.append((fn.name, "@" + name, d, "memoising decorator"))
+        # instance dictionaries of objects handed in by the caller used as side storage: p.__dict__, vars(p),
+        # setattr(p, ...), object.__setattr__(p, ...) with p a parameter (objects the function creates itself are its own)
+        fparams = set(a.arg for a in fn.args.posonlyargs + fn.args.args + fn.args.kwonlyargs)
+        # parameters of enclosing functions count as well (closures such as a decorator's wrapper)
+        anc = getattr(fn, "_parent", None)
+        while anc is not None:
+            if isinstance(anc, (ast.FunctionDef, ast.AsyncFunctionDef)):
+                fparams |= set(a.arg for a in anc.args.posonlyargs + anc.args.args + anc.args.kwonlyargs)
+            anc = getattr(anc, "_parent", None)
+
+        def _root(e):
+            while isinstance(e, (ast.Attribute, ast.Subscript)):
+                e = e.value
+            return e.id if isinstance(e, ast.Name) else None
+
+        for n in ast.walk(fn):
+            if isinstance(n, ast.Attribute) and n.attr == "__dict__" and _root(n.value) in fparams:
+                out.append((fn.name, "%s.__dict__" % (dotted(n.value) or "?"), n, "instance __dict__ of a caller's object used as side storage (survives whatever clears the object's declared entries)"))
+            elif isinstance(n, ast.Call) and dotted(n.func) in ("vars", "setattr", "object.__setattr__") and n.args and _root(n.args[0]) in fparams:
+                out.append((fn.name, "%s(%s, ...)" % (dotted(n.func), dotted(n.args[0]) or "?"), n, "attributes attached at run time to an object handed in by the caller"))
+            elif isinstance(n, ast.Call) and dotted(n.func) == "getattr" and len(n.args) >= 2 and isinstance(n.args[1], ast.Constant) and n.args[1].value == "__dict__" and _root(n.args[0]) in fparams:
+                out.append((fn.name, "getattr(%s, '__dict__')" % (dotted(n.args[0]) or "?"), n, "instance __dict__ of a caller's object used as side storage"))
         # mutable defaults that the body mutates
         args = fn.args.posonlyargs + fn.args.args
         defaults = dict(zip([a.arg for a in args][len(args) - len(fn.args.defaults):], fn.args.defaults))
@@ -166,6 +188,8 @@ def g(x):
     global _COUNT
     _COUNT = x
     g.last = x
+def h(state):
+    state.__dict__.setdefault("memo", {})[1] = 2
 '''
 
 
@@ -180,7 +204,7 @@ def selfcheck():
     m = M()
     m.tree = ast.parse(FIXTURE)
     got = sorted(set((q, g) for q, g, n, how in runtime_mutations(m) + other_hidden_state(m)))
-    want = [("K.put", "K.shared"), ("f", "_MEMO"), ("f", "_SEEN"), ("f", "acc"), ("g", "_COUNT"), ("g", "g.last")]
+    want = [("K.put", "K.shared"), ("f", "_MEMO"), ("f", "_SEEN"), ("f", "acc"), ("g", "_COUNT"), ("g", "g.last"), ("h", "state.__dict__")]
     if got != want:
         raise AnalysisError("hidden-state analysis self-check failed: %s != %s" % (got, want))
     return len(want)
